@@ -577,6 +577,7 @@ fn gen_reads(files: usize, reads: usize, r: &mut Rng, emit: &mut dyn FnMut(Case)
             };
             let call_rg = if rgk == "all" { r.below(2) as i64 } else { 1 };
             let nrows: usize = chosen.iter().map(|g| rgs[*g]).sum();
+            let mut cum: Vec<usize> = Vec::new(); // selected-row counts at the end of each select run
             let (sel, selk) = match r.below(8) {
                 0 | 1 => (vec![], "nosel".to_string()),
                 k => {
@@ -600,6 +601,8 @@ fn gen_reads(files: usize, reads: usize, r: &mut Rng, emit: &mut dyn FnMut(Case)
                         }
                         _ => gen_bits(r, len),
                     };
+                    let mut c = 0;
+                    for i in 0..bits.len() { if bits[i] { c += 1; if i + 1 == bits.len() || !bits[i + 1] { cum.push(c); } } }
                     let (gsel, kk) = enc_bits(r, &bits);
                     (gsel, format!("sel{kk}{}", if len < nrows { "short" } else { "" }))
                 }
@@ -617,9 +620,11 @@ fn gen_reads(files: usize, reads: usize, r: &mut Rng, emit: &mut dyn FnMut(Case)
                     _ => { let lo = r.below(total + 1) as i64; preds.extend([3, lo, lo, extra]) }       // always false
                 }
             }
-            let (rb1, rb2) = (r.below(nrows + 2), r.below(nrows + 2));
-            let offset: Vec<usize> = if r.chance(1, 3) { vec![*r.pick(&[0, 1, 2, page_rows, nrows / 2, nrows, nrows + 1, rb1])] } else { vec![] };
-            let limit: Vec<usize> = if r.chance(1, 3) { vec![*r.pick(&[0, 1, 2, page_rows, nrows / 2, nrows, nrows + 5, rb2])] } else { vec![] };
+            if cum.is_empty() { let mut acc = 0; for g in &chosen { acc += rgs[*g]; cum.push(acc); } cum.push(page_rows); }
+            let (cb1, cb2) = ((*r.pick(&cum) + r.below(3)).saturating_sub(1), (*r.pick(&cum) + r.below(3)).saturating_sub(1));
+            let (rb1, rb2) = if r.bool() { (cb1, cb2) } else { (r.below(nrows + 2), r.below(nrows + 2)) };
+            let offset: Vec<usize> = if r.chance(1, 3) { vec![*r.pick(&[0, 1, 2, page_rows, nrows / 2, nrows, nrows + 1, rb1, rb1, rb1, rb1, rb1])] } else { vec![] };
+            let limit: Vec<usize> = if r.chance(1, 3) { vec![*r.pick(&[0, 1, 2, page_rows, nrows / 2, nrows, nrows + 5, rb2, rb2, rb2, rb2, rb2])] } else { vec![] };
             let bs = *r.pick(&[1usize, 2, 3, 7, 8, 64, 100, 1024, 8192]);
             let proj: Vec<i64> = match r.below(6) {
                 0 => vec![1, 0, 0, 0], 1 => vec![1, 1, 1, 1], 2 => vec![1, 0, 0, 1], 3 => vec![0, 0, 0, 1],
